@@ -612,12 +612,12 @@ pub fn run(ctx: &mut Ctx) {
     ctx.explore(
         SubCfg::new(
             "c16-background-queue",
-            "BackgroundQueue over a scripted stream with per-entry results Ok / Validation / Io (the driver and oracle of C01: 1-3 producer threads x 0-12 ops, fuel-gated writer, shutdown with or without a backlog). Oracle: every appended entry is handed to the stream exactly once whatever the results of the others (no retry after an Io error, nothing skipped), the stream is flushed after the last entry and dropped, append never panics. Non-trivial as in c01-delivery",
+            "BackgroundQueue over a scripted stream with per-entry results Ok / Validation / Io, failing stream flushes and Io results for the queue's own in-band report (the driver and oracle of C01: 1-3 producer threads x 0-12 ops, fuel-gated writer, shutdown with or without a backlog). Oracle: every appended entry is handed to the stream exactly once whatever the results of the others (no retry after an Io error, nothing skipped), the stream is flushed after the last entry and dropped, append never panics. Non-trivial as in c01-delivery",
             if q { 600 } else { 15_000 },
         )
         .threads(ctx.tier.pick(4, 8))
         .shrink_iters(100)
-        .mandatory(&["non-ok-result"]),
+        .mandatory(&["non-ok-result", "stream-flush-errors"]),
         || super::c01::arb_case(3, 12),
         super::c01::check,
     );
